@@ -4,6 +4,6 @@ package main
 func init() {
 	serve("C01", "T1", "T2")
 	serve("CXX", "T4", "T5", "T6")
-	serve("CB", "B1", "B2", "T1", "T2", "T4", "T5", "T6")
+	serve("CB", "F1", "F2", "B1", "B2", "B3", "B4", "B1n", "T1", "T2", "T4", "T5", "T6")
 	serve("C06", "T1", "T2")
 }
